@@ -36,7 +36,9 @@ ASSUMPTIONS = [
 ]
 
 NAN = float("nan")  # ONE object: the very same NaN passed again is the same pattern for functools
-VALUES = [0, 1, 2, 1.0, 2.0, True, False, None, "a", "1", (1,), (1.0,), (1, 2), "LIST", "boom", "NAN"]
+VALUES = [0, 1, 2, 1.0, 2.0, True, False, None, "a", "1", (1,), (1.0,), (1, 2), "LIST", "boom", "NAN",
+          # positional values that look like a keyword item: f(("a", 1)) is not f(a=1)
+          ("a", 1), ("b", 1), ("a", 2)]
 
 
 def _val(v):
@@ -46,7 +48,7 @@ def _val(v):
 
 
 # indexes into VALUES; the confusable values 1 / 1.0 / True / (1,) / (1.0,) are over-weighted
-ARG = st.one_of(st.sampled_from(range(len(VALUES))), st.sampled_from([1, 3, 5, 10, 11]))
+ARG = st.one_of(st.sampled_from(range(len(VALUES))), st.sampled_from([1, 3, 5, 10, 11, 1, 16, 17]))
 CALL = st.tuples(st.lists(ARG, max_size=2), st.lists(st.tuples(st.sampled_from(["a", "b"]), ARG), max_size=2,
                                                      unique_by=lambda t: t[0]))
 
